@@ -7,7 +7,7 @@ for f in sorted(glob.glob(os.path.join(HERE, 'seeded', '*', '*', 'meta.json'))):
     m = json.load(open(f))
     m['_name'] = os.path.basename(os.path.dirname(f))
     m['_pid'] = os.path.basename(os.path.dirname(os.path.dirname(f)))
-    m['_round'] = 4 if m['_name'].startswith('r4-') else 3 if m['_name'].startswith('r3-') else (2 if m['_name'].startswith('r2-') else 1)
+    m['_round'] = 5 if m['_name'].startswith('r5-') else 4 if m['_name'].startswith('r4-') else 3 if m['_name'].startswith('r3-') else (2 if m['_name'].startswith('r2-') else 1)
     ms.append(m)
 d = open(os.path.join(HERE, 'DESIGN.md')).read()
 missed = [m for m in ms if not m.get('caught_by_check')]
@@ -15,7 +15,8 @@ n1 = sum(1 for m in missed if m['_round'] == 1)
 n2 = sum(1 for m in missed if m['_round'] == 2)
 n3 = sum(1 for m in missed if m['_round'] == 3)
 n4 = sum(1 for m in missed if m['_round'] == 4)
-s93 = '### 9.3 Changes that are not caught (%d + %d + %d + %d)\n\n' % (n1, n2, n3, n4)
+n5 = sum(1 for m in missed if m['_round'] == 5)
+s93 = '### 9.3 Changes that are not caught (%d + %d + %d + %d + %d)\n\n' % (n1, n2, n3, n4, n5)
 for m in missed:
     s93 += '* `seeded/%s/%s` — %s\n' % (m['_pid'], m['_name'], re.sub(r'^NOT CAUGHT:\s*', '', m.get('disposition', '')))
 s93 += '\n'
